@@ -273,7 +273,12 @@ def run(ctx, chk):
             chk.bad(R6, "ext-set-track(%s)" % name, "ExtInstSetTracker::track is not analysable: %s" % ex, WT_, key="C07:extset-shape")
             continue
         chk.check(R6, res == ("ok", want), "ext-set-track(%s)" % name, "records %s, expected %s" % (res, want), WT_, key="C07:extset:%s" % name)
-    for known, table in (("GlslStd450", "GGlInstTable"), ("OpenCLStd100", "GClInstTable"), (None, None)):
+    nh = 0
+    for text, pb in extx.histories(ctx):
+        nh += 1
+        chk.check(R6, pb is None, "ext-set-history(%s)" % text, "after track(%s): %s" % (text, pb), WT_, key="C07:extset-history")
+    chk.floor(R6, "tracker histories", nh, 200)
+    for known, table in (("GlslStd450", "GlslStd450InstructionTable"), ("OpenCLStd100", "OpenCLStd100InstructionTable"), (None, None)):
         try:
             r = extx.resolve_eval(ctx, known)
             want = ("lookup", table, ("sym", "OPCODE")) if known else ("none",)
